@@ -240,6 +240,7 @@ class Checker:
             by_name.setdefault((it[1].label if isinstance(it[1], Contract) else it[1].name, it[2].name), []).append(it)
         violations = []
         finder_cache = {}
+        searched = set()
         for (clabel, oname), its in sorted(by_name.items()):
             g, c, _, _ = its[0]
             solver_out = [{'path': it[2].path, 'status': it[2].result['status'], 'backend': it[2].result['backend'],
@@ -261,6 +262,14 @@ class Checker:
                         confirmed = (i, r)
                 if confirmed is None:
                     confirmed = self.bounded_finder(g, c, finder_cache, tried)
+                if confirmed is None and (g.name, c.label) not in searched:
+                    searched.add((g.name, c.label))
+                    seeds = inputs[:3] or [{}]
+                    for i, r in zip(seeds, native([{'group': g.name, 'key': c.key, 'variant': c.variant, 'inputs': i,
+                                                     'search': True} for i in seeds], self.repo)):
+                        if r.get('status') == 'violated':
+                            confirmed = (r.get('scenario', i), r)
+                            break
             safe = re.sub(r'[^A-Za-z0-9_.-]+', '_', oname)[:120]
             path = os.path.join(VERIF, 'replays', f'{self.prop}-{safe}.json')
             doc = {'property': self.prop, 'obligation': oname, 'function': getattr(c, 'key', 'lemma'),
@@ -268,7 +277,8 @@ class Checker:
                    'confirmed': bool(confirmed)}
             if confirmed:
                 doc['inputs'], doc['native'] = confirmed
-                doc['request'] = request_for(g, c, confirmed[0])
+                doc['request'] = ({'group': g.name, 'key': c.key, 'variant': c.variant, 'inputs': confirmed[0], 'search': True}
+                                  if 'search' in (confirmed[1].get('violated') or []) else request_for(g, c, confirmed[0]))
             doc['tried'] = tried[:20]
             with open(path, 'w') as f:
                 json.dump(doc, f, indent=1, default=str)
